@@ -298,6 +298,9 @@ pub fn run_crl_case(case: &Value, idx: usize, seed: u64, pool: &mut KeyPool, out
 	let key = &v[rng.below(v.len() as u64) as usize];
 	let mut idesc = issuer_desc(&issuer_dn, &issuer_kid);
 	idesc["ku"] = case["issuerKu"].clone();
+	if case.get("issuerCrlDp").and_then(|v| v.as_bool()).unwrap_or(false) {
+		idesc["crldp"] = json!([[hex(b"http://crl.issuer.example/own.crl")], [hex(b"ldap://crl.issuer.example/second")]]);
+	}
 	let (issuer, issuer_raw) = match self_signed_logged(&idesc, key, "crl-issuer", &case_id, out) {
 		Some(x) => x,
 		None => return,
